@@ -26,11 +26,13 @@ pub fn valuations(seed: u64, n: usize) -> Vec<Valuation> {
   r24.extend((0..23).map(|_| rng.gen::<u8>()));
   let mut r700 = vec![0x20u8];
   r700.extend((0..699).map(|_| rng.gen::<u8>()));
+  // long-symbol and short-symbol valuations alternate, so that any prefix of the list holds both
+  // (altered collections are only executed under valuations whose symbols are >= 8 bytes)
   let mut all = vec![
-    Valuation { name: "ascii".into(), img: [b"a".to_vec(), b"b".to_vec()] },
     Valuation { name: "block166/167".into(), img: [vec![0x41; 166], vec![0x42; 167]] },
-    Valuation { name: "nul/ff".into(), img: [vec![0x00], vec![0xff]] },
+    Valuation { name: "ascii".into(), img: [b"a".to_vec(), b"b".to_vec()] },
     Valuation { name: "random24/700".into(), img: [r24, r700] },
+    Valuation { name: "nul/ff".into(), img: [vec![0x00], vec![0xff]] },
     Valuation { name: "elem24/25".into(), img: [vec![0x01; 24], vec![0x02; 25]] },
     Valuation { name: "utf8".into(), img: ["é".as_bytes().to_vec(), "日本".as_bytes().to_vec()] },
     Valuation { name: "block332/15".into(), img: [vec![0x61; 332], vec![0x7a; 15]] },
@@ -38,10 +40,6 @@ pub fn valuations(seed: u64, n: usize) -> Vec<Valuation> {
     Valuation { name: "ws-padded".into(), img: [b" a ".to_vec(), b"\tb\n".to_vec()] },
     Valuation { name: "unicode-ws".into(), img: ["\u{3000}x\u{a0}".as_bytes().to_vec(), "y \u{2003}".as_bytes().to_vec()] },
   ];
-  // rotate by seed so different seeds lead with different valuations
-  let k = (seed as usize) % all.len();
-  all.rotate_left(k);
-  // always keep "ascii" and a block-sized valuation among the first three
   all.truncate(n.max(1).min(all.len()));
   all
 }
